@@ -644,23 +644,28 @@ func caseCoq(c *Case) string {
 	for i, f := range c.Files {
 		byName[f.Name] = i
 	}
-	var fileCoq func(name string, depth int) string
-	fileCoq = func(name string, depth int) string {
+	plain := func(name string) (string, File) {
 		i, ok := byName[name]
-		if !ok || depth > 8 {
+		if !ok {
 			panic("bad file reference " + name)
 		}
 		f := c.Files[i]
-		par := "None"
-		if f.Extends != "" {
-			par = "(Some " + fileCoq(f.Extends, depth+1) + ")"
-		}
 		dir := filepath.Dir(filepath.Join(c.Dir, f.Name))
-		return "(CFile " + coqfmt.N(uint64(i+1)) + " " + bytesCoq(dir) + "\n    " + projectCoq(nm, f.Cfg) + "\n    " + par + ")"
+		return "(mkFile " + coqfmt.N(uint64(i+1)) + " " + bytesCoq(dir) + "\n    " + projectCoq(nm, f.Cfg) + ")", f
 	}
 	files := make([]string, len(c.Load))
 	for i, n := range c.Load {
-		files[i] = fileCoq(n, 0)
+		s, f := plain(n)
+		var anc []string
+		for depth := 0; f.Extends != ""; depth++ {
+			if depth > 8 {
+				panic("extends chain too long")
+			}
+			var a string
+			a, f = plain(f.Extends)
+			anc = append(anc, a)
+		}
+		files[i] = "(" + s + ",\n   " + coqfmt.List(anc) + ")"
 	}
 	obs2 := "None"
 	if len(c.Load2) > 0 {
